@@ -138,6 +138,21 @@ def run(ctx):
     tasks = [(a, b, tuple(fam)) for a in fam for b in fam]
     # second sub-family: multiple inheritance / base lists (own chains)
     tasks += [(a, b, tuple(fam2)) for a in fam2 for b in fam2]
+    # focus groups (single-field SET / RESET, deep nesting): two-step
+    # chains base -> variant -> base -> empty and variant -> base -> variant
+    extra = set()
+    for g, allpairs in schemas.FOCUS_GROUPS:
+        base = g[0]
+        members = g if (allpairs or not ctx.quick) else [
+            m for i, m in enumerate(g[1:]) if i % 3 == ctx.seed % 3]
+        for m in members:
+            if m != base:
+                tasks.append((base, m, (base,)))
+                tasks.append((m, base, (m,)))
+                extra.update((base, m))
+    if extra:
+        schemax.family_built(ctx, sorted(set(fam) | set(fam2) | {'empty'}
+                                         | extra))
     k = ctx.seed % len(tasks)
     tasks = tasks[k:] + tasks[:k]
     res = runner.pmap(ctx, 'props.c10', 'work', tasks,
